@@ -110,6 +110,19 @@ def behOf (fn : String) : Beh Int CS Inp OV Int where
           let s1 : CS := { s with e := some s.echo, pend := MAX_DT }
           { st := s1, out := some (.i (sum2 s1)), next := MAX_DT }
         else { st := s, next := s.pend }
+    | "eguard" => match i.aTick, i.a with
+      | true, some v =>
+        -- the echo node is ranked BEFORE the guard: it has ticked and armed its wake-up when the guard throws; the
+        -- sum node (after the guard) is not evaluated in the failing cycle; the child's wake-up survives
+        if v < 0 then { st := { s with e := some v, echo := v + 100, pend := now + 2 }, err := some v, next := now + 2 }
+        else
+          let s1 : CS := { s with g := some v, e := some v, echo := v + 100, pend := now + 2 }
+          { st := s1, out := some (.i (sum2 s1)), next := now + 2 }
+      | _, _ =>
+        if s.pend == now then
+          let s1 : CS := { s with e := some s.echo, pend := MAX_DT }
+          { st := s1, out := some (.i (sum2 s1)), next := MAX_DT }
+        else { st := s, next := s.pend }
     | "addb" => match i.a, i.z with
       | some v, some z => if i.aTick || i.zTick then { st := s, out := some (.i (v + z)) } else { st := s }
       | _, _ => { st := s }
@@ -368,7 +381,7 @@ def cycleStep (d : DS) (ops : List Op) : DS × String :=
             outValid := outValid, errValid := errValid, cycle := d.cycle + 1, rd := rd }, line)
 
 def fnKnown (f : String) : Bool :=
-  ["inc", "acc", "addkey", "echo1", "echo2", "echo3", "echov", "even", "neg", "negecho", "addb", "pair", "nest",
+  ["inc", "acc", "addkey", "echo1", "echo2", "echo3", "echov", "even", "neg", "negecho", "eguard", "addb", "pair", "nest",
    "evenref", "flagref", "bflagref", "swref"].contains f
 
 def reset (d : DS) : DS := { cfg := d.cfg, bad := d.bad }
